@@ -257,12 +257,8 @@ func c16(c *an.Check) {
 					if !ok || !strings.HasSuffix(fa.X.Type().String(), "secretsharing.Share") {
 						continue
 					}
-					src := st.Val
-					if call, ok := src.(*ssa.Call); ok && call.Call.IsInvoke() && call.Call.Method.Name() == "NewScalar" {
+					if newScalarInLoop(st.Val, inner) {
 						nNew++
-						if !inner[call.Block()] {
-							fresh = false
-						}
 					} else {
 						fresh = false
 					}
@@ -325,12 +321,8 @@ func shareScalarFreshness(c *an.Check, unlock *ssa.Function) {
 				continue
 			}
 			inner := an.InnermostLoop(unlock, st.Block())
-			call, isCall := st.Val.(*ssa.Call)
-			if isCall && call.Call.IsInvoke() && call.Call.Method.Name() == "NewScalar" {
+			if newScalarInLoop(st.Val, inner) {
 				nNew++
-				if inner == nil || !inner[call.Block()] {
-					fresh = false
-				}
 			} else {
 				fresh = false
 			}
@@ -696,4 +688,50 @@ func init() {
 		Explain:     "Decides on SSA for BuildEnvelope: share generation is reached only past 'reachable > threshold', where the compared quantity is an accumulation whose every increment is min(grant share count, remaining budget), is control-dependent on the grant having at least one keypair index, and whose budget is initialised with the very value passed to Share(n) (so an override or a different count cannot diverge between validation and generation); the sharing threshold is the configured one; grants are filled from the generated list. (LOOPALLOC) every collected share has scalars of its own; (PROVENANCE) the distribution loop hands out (ID, Value) of one generated share, advances its cursor by one per handed share, encrypts each grant body to keypairs[cfg[gi].KeypairIndexes[r]] under buildGrantEncContext(id, context, gi), stores ciphertext r at position r and the grant at index gi, and records the configured threshold and the keypairs in order. Generated codec sanity for package envelope; decrypt leaves its input untouched.",
 		NotCov:      "equivalence of the validation model and the distribution loop for every configuration, and that recipients' keys decrypt their grants (C12).",
 		Assumptions: commonAssumptions})
+}
+
+// newScalarInLoop: v is a scalar object created for this iteration of loop — a NewScalar call inside the loop, or the
+// result of a same-package helper that is called inside the loop and returns a scalar it creates itself.
+func newScalarInLoop(v ssa.Value, loop map[*ssa.BasicBlock]bool) bool {
+	isNew := func(x ssa.Value) (*ssa.Call, bool) {
+		call, ok := x.(*ssa.Call)
+		return call, ok && call.Call.IsInvoke() && call.Call.Method.Name() == "NewScalar"
+	}
+	if call, ok := isNew(v); ok {
+		return loop != nil && loop[call.Block()]
+	}
+	idx := 0
+	var hc *ssa.Call
+	switch x := v.(type) {
+	case *ssa.Extract:
+		hc, _ = x.Tuple.(*ssa.Call)
+		idx = x.Index
+	case *ssa.Call:
+		hc = x
+	}
+	if hc == nil || loop == nil || !loop[hc.Block()] {
+		return false
+	}
+	h := hc.Call.StaticCallee()
+	if h == nil || len(h.Blocks) == 0 || h.Pkg == nil || h.Pkg != hc.Parent().Pkg {
+		return false
+	}
+	n := 0
+	for _, b := range h.Blocks {
+		for _, ins := range b.Instrs {
+			ret, ok := ins.(*ssa.Return)
+			if !ok || idx >= len(ret.Results) {
+				continue
+			}
+			r := ret.Results[idx]
+			if k, isK := r.(*ssa.Const); isK && k.Value == nil {
+				continue // error paths return nil
+			}
+			if _, ok := isNew(r); !ok {
+				return false
+			}
+			n++
+		}
+	}
+	return n > 0
 }
